@@ -142,7 +142,7 @@ def floors(tier):
     cells = [('alias', op) for op in ('__init__', 'deepcopy', 'like', '__add__', '__mul__', '__neg__', '__invert__', '__and__', '__lshift__', '__rshift__', '__array_function__',
                                       '__array_ufunc__', 'sum', 'add')]
     cells += [('container', k) for k in ('list', 'list:nested', 'list:str', 'tuple', 'ndarray:f', 'ndarray:i', 'ndarray:U')]
-    cells += [('history', r) for r in ROUTES] + [('mutation', m) for m in MUTATIONS] + [('view',), ('config', 'attribute'), ('config', 'kwarg'), ('config', 'Config')]
+    cells += [('history', r) for r in ROUTES] + [('mutation', m) for m in MUTATIONS] + [('view',), ('container-functions',), ('config', 'attribute'), ('config', 'kwarg'), ('config', 'Config')]
     return cells
 
 
@@ -377,6 +377,14 @@ def run_case(case, ctx):
         a = Fxp(np.zeros((2, 4)), s, w, nf)
         _try(lambda: a.__setitem__(1, conts[0]))
         _try(lambda: a.__setitem__(0, conts[4]))
+        # arrays and lists handed to functions of fixed-point objects (operands, bounds, masks) are inputs too: never modified
+        xv = Fxp(np.array(vals), s, w, nf)
+        lo_b, hi_b = np.full(4, float(F(lo // 2) * R.lsb(nf))), np.full(4, float(F(hi // 2) * R.lsb(nf)))
+        for f_ in (lambda: np.clip(xv, lo_b, hi_b), lambda: xv.clip(lo_b, hi_b), lambda: np.clip(xv, list(lo_b), list(hi_b)), lambda: xv + np.array(vals), lambda: np.array(vals) * xv,
+                   lambda: np.multiply(xv, list(vals)), lambda: np.dot(xv, np.array(vals)), lambda: xv - list(vals), lambda: xv & np.array(cs), lambda: np.array(vals) < xv,
+                   lambda: ctx.mon.fxpmath.add(xv, np.array(vals)), lambda: xv.equal(Fxp(np.array(vals), s, w, nf)), lambda: xv / np.array([v if v else 1.0 for v in vals])):
+            _try(f_)
+        ctx.floor_hit(('container-functions',))
         return
     if k == 'config':
         Config = ctx.mon.objects.Config
